@@ -2,6 +2,7 @@ import Casket.Model.Chain
 import Casket.Spec.Chain
 import Casket.Spec.Cond
 import Casket.Spec.Htpasswd
+import Casket.Spec.AuthConc
 import Driver.C02
 /-
 Streams of C03.
@@ -267,9 +268,66 @@ def multiJudge (f : List String) (out : String) : String :=
       Casket.HtpasswdSpec.verdict last.1 served c.host c.path c.creds o
     | _, _ => "bad:unparsable:" ++ out
 
+/-! ### c03.conc : concurrent requests with valid and with wrong credentials on one protected path
+
+  c03.conc  kind  user  pass  wrong  goroutines  rounds
+     kind        plain | sha | htplain | tworules     how the rule's password is configured (plain argument, htpasswd {SHA} / plain entry,
+                 two rules on the same resource)
+     user, pass  hex: the rule's credentials
+     wrong       hex of  user:password,user:password,…   credentials that are NOT valid
+     goroutines  so many goroutines present the valid credentials, as many more cycle through the wrong ones
+     rounds      requests per goroutine (the phase also ends after 2 s)
+     out         leak=<0|1> refused=<0|1>    some wrong-credential request was served / some valid one got 401
+  EXPLORATION of schedules: the Go scheduler chooses the interleavings; the model's answer is the
+  tally of `AuthConc.runSched` under maximal overlap, which by C03_conc_model_verdict_ok is the same
+  for every schedule.
+-/
+structure ConcCase where
+  rule : AuthRule
+  calls : List Casket.AuthConc.Call
+
+def parseConcCase : List String → Option ConcCase
+  | [_kind, uH, pH, wH, g, _rounds] => do
+    let u ← Driver.unhex uH
+    let p ← Driver.unhex pH
+    let w ← Driver.unhex wH
+    let n ← g.toNat?
+    let wrong : List Casket.AuthConc.Call := (if w = [] then [] else splitOn 44 w).map fun c =>
+      let c3 := cut 58 c
+      { user := c3.1, pw := c3.2.1 }
+    pure { rule := { user := u, pass := p, resources := [b! "/secret"], excludes := [] },
+           calls := (List.replicate n { user := u, pw := p }) ++ wrong }
+  | _ => none
+
+def renderObs (o : Casket.AuthConcSpec.Obs) : String :=
+  s!"leak={if o.wrongServed = 0 then 0 else 1} refused={if o.validRefused = 0 then 0 else 1}"
+
+open Casket.AuthConc in
+def concModel (f : List String) : String :=
+  match parseConcCase f with
+  | none => "bad-case"
+  | some c =>
+    renderObs (Casket.AuthConcSpec.tally c.rule c.calls
+      (runSched id c.rule c.calls (idleSlots c.calls) (overlapped c.calls.length)))
+
+def concJudge (f : List String) (out : String) : String :=
+  match parseConcCase f with
+  | none => "bad:unparsable:case"
+  | some _ =>
+    match out.splitOn " " with
+    | [l, r] =>
+      match l.splitOn "=", r.splitOn "=" with
+      | ["leak", a], ["refused", b] =>
+        match a.toNat?, b.toNat? with
+        | some a, some b => Casket.AuthConcSpec.verdict { wrongServed := a, validRefused := b }
+        | _, _ => "bad:unparsable:" ++ out
+      | _, _ => "bad:unparsable:" ++ out
+    | _ => "bad:unparsable:" ++ out
+
 def streams : List Driver.Stream := [
   { name := "c03.chain", model := chainModel, judge := chainJudge },
-  { name := "c03.multi", model := multiModel, judge := multiJudge }
+  { name := "c03.multi", model := multiModel, judge := multiJudge },
+  { name := "c03.conc", model := concModel, judge := concJudge }
 ]
 
 end Driver.C03
